@@ -149,3 +149,12 @@ CLAIMS["C01"] = (
     "agreement between loop conversion, declared target and C template; action placement in literal matches; program-order linking. Passing says the "
     "mechanism is wired as designed, not that every program's machine is right.",
     "Trusted: shape recognisers over the converters. Not decided: append_after / _merge / set_next logic, i.e. behaviour of the compiled machine.")
+CLAIMS["C18"] = (
+    "exception-discipline analysis: raise/assert inventory with dispatch-coverage dead-code proofs, dict/conversion totality over grammar domains, definite assignment, optional flow",
+    "Static: over all pipeline functions, every raise of a non-NMFUError type and every assert is proven dead by a dispatch shown total on this run, caught "
+    "at every call site, or triaged with a reason; dict-literal subscripts and int()/Enum(value) conversions of input-derived text are total over the "
+    "finite domain the grammar gives their key/argument, validated, or guarded; no local is read unassigned; value-returning functions that can fall "
+    "off their end are triaged and the None AST of an action-only parser is tested; error constructors get tokens; macro recursion is bounded; the driver "
+    "catches per phase. Decides these flows for all sources; does not decide termination of the compiler's fixpoint loops nor arbitrary "
+    "IndexError/AttributeError. Found and repaired F-09, F-11, F-16, F-18, F-19, F-20.",
+    "Trusted: the frozen triage tables in rules/c18.py (one reason per entry; a new raise/assert/fall-off/unassigned local is reported, never silently added).")
